@@ -263,6 +263,7 @@ class FakeNetwork:
         self.on_header = _Stream()
         self.on_status = _Stream()
         self.subscribed = []
+        self.calls = {}            # address -> number of get_history calls so far
 
     async def _delay(self):
         for _ in range(self.r.delay_rng.choice((0, 0, 1, 1, 2, 3, 5))):
@@ -272,11 +273,28 @@ class FakeNetwork:
         return await f(*a, **k)
 
     async def get_history(self, address):
+        # the answer is either computed when the request arrives and delivered late (always so for a call the
+        # scenario holds back with a gate), or computed after the delay; 'begin' is logged when the state is read
+        self.r.activity += 1
+        k = self.calls[address] = self.calls.get(address, 0) + 1
+        gate = self.r.gates.get((address, k))
+        read_first = gate is not None or self.r.delay_rng.random() < 0.5
+        answer = None
+        if read_first:
+            self.r.on_fetch(address)
+            answer = [{'tx_hash': t, 'height': h} for t, h in self.r.world.history(address)]
+        if gate is not None:
+            self.r.count_held += 1
+            await gate.wait()
         await self._delay()
-        self.r.on_fetch(address)                               # the moment the server state is read
-        return [{'tx_hash': t, 'height': h} for t, h in self.r.world.history(address)]
+        if not read_first:
+            self.r.on_fetch(address)
+            answer = [{'tx_hash': t, 'height': h} for t, h in self.r.world.history(address)]
+        self.r.activity += 1
+        return answer
 
     async def get_transaction_batch(self, txids, restricted=True):
+        self.r.activity += 1
         await self._delay()
         w = self.r.world
         return {t: (w.txs[w.by_txid[t]]['raw'], {}) for t in txids}
@@ -310,13 +328,60 @@ class Runner:
         self.last_notified = {}
         self.delay_rng = random.Random(scenario.get('delay_seed', 0))
         self.checkpoints = []
+        self.gates = {}                      # (address, k) -> Event: the k-th get_history answer for address is held
+        self.activity = 0
+        self.count_held = 0
 
     def remember_status(self, address, st):
         if st is not None:
             self.status_hist[st] = self.world.model_hist(self.world.history(address))
 
     def log(self, *op):
+        self.activity += 1
         self.trace.append(list(op))
+
+    async def settle(self):
+        """wait until nothing moves any more: every running update is blocked on a held answer or on a lock"""
+        last, still = -1, 0
+        for _ in range(400):
+            await asyncio.sleep(0.005)
+            if self.activity == last:
+                still += 1
+                if still >= 6:
+                    return
+            else:
+                last, still = self.activity, 0
+
+    async def run_actions(self, actions):
+        """explicit schedule: add transactions, notify, hold / release chosen get_history answers"""
+        w = self.world
+        for act in actions:
+            kind = act[0]
+            if kind == 'add':
+                w.add_tx(act[1])
+                self.log('server', w.model_server())
+            elif kind == 'confirm':
+                w.heights[act[1]] = act[2]
+                self.log('server', w.model_server())
+            elif kind == 'notify':
+                a = w.addr_of[('w', 2 * act[1][1] + act[1][2], act[1][3])]
+                st = w.status(a)
+                self.remember_status(a, st)
+                self.last_notified[a] = st
+                self.notify(a, st)
+            elif kind == 'hold':
+                a = w.addr_of[('w', 2 * act[1][1] + act[1][2], act[1][3])]
+                self.gates[(a, self.net.calls.get(a, 0) + act[2])] = asyncio.Event()
+            elif kind == 'release':
+                a = w.addr_of[('w', 2 * act[1][1] + act[1][2], act[1][3])]
+                for (b, k), ev in sorted(self.gates.items(), key=lambda x: x[0][1]):
+                    if b == a and not ev.is_set() and (len(act) < 3 or act[2] == 'next'):
+                        ev.set()
+                        break
+            elif kind == 'pause':
+                await self.settle()
+        for ev in self.gates.values():
+            ev.set()
 
     def on_fetch(self, address):
         st = self.locked.get(address)
@@ -333,6 +398,7 @@ class Runner:
 
         async def update_history(address, remote_status, address_manager=None, reattempt_update=True):
             me.task_info[asyncio.current_task()] = (address, remote_status)
+            me.activity += 1
             try:
                 return await real_update(address, remote_status, address_manager, reattempt_update)
             except Exception as e:   # the TaskGroup would swallow it; the monitor must see it
@@ -346,6 +412,7 @@ class Runner:
 
         async def get_local_status_and_history(address, history=None):
             res = await real_local(address, history)
+            me.activity += 1
             if history is None:
                 info = me.task_info.get(asyncio.current_task())
                 if info is not None and info[0] == address:
@@ -417,6 +484,12 @@ class Runner:
                 if first or stage.get('resubscribe'):
                     first = False
                     await self.ledger.subscribe_accounts()
+                if stage.get('actions') is not None:
+                    await self.quiesce()
+                    await self.run_actions(stage['actions'])
+                    await self.quiesce()
+                    await on_checkpoint(si)
+                    continue
                 # notifications for every subscribed address whose status changed, order chosen by the scenario
                 changed = [a for a in self.net.subscribed
                            if self.world.status(a) != self.last_notified.get(a, None)]
@@ -680,6 +753,34 @@ def order_scenario(k, perm, yield_p):
                        {'new': spend, 'order_seed': 2, 'order': perm, 'yield_p': yield_p}]}
 
 
+def gated_scenario(rng, demo=False):
+    """several status notifications for ONE address in quick succession (its history growing by one transaction
+    each time) while chosen get_history answers are computed on arrival but delivered late, released in an order
+    the generator chooses; sometimes a second address is notified in between.  demo=True is the schedule
+    'notification 2 arrives while update 1 runs, 3 arrives while update 2 awaits its answer, 2's answer last'."""
+    gap = 3
+    n = 2 if demo else rng.randrange(gap)
+    to = ['w', 0, 0, n]
+    other = ['w', 0, 0, (n + 1) % gap]
+    m = 3 if demo else rng.choice((3, 3, 4))
+    holds = [1, 2] if demo else sorted(rng.sample(range(1, m + 1), rng.randrange(1, m)))
+    actions = [['hold', to, k] for k in holds]
+    pending = len(holds)
+    for j in range(m):
+        outs = [{'kind': 'p2pkh', 'amt': 100 * (j + 1), 'to': to}]
+        if not demo and rng.random() < 0.4:
+            outs.append({'kind': 'p2pkh', 'amt': 7, 'to': other})
+        actions += [['add', {'ins': [['ext', 500 + j]], 'outs': outs, 'height': 10 + j if demo or rng.random() < 0.7 else 0}],
+                    ['notify', to], ['pause']]
+        if len(outs) > 1:
+            actions += [['notify', other]]
+        if pending and j >= 1 and (demo or rng.random() < 0.7):
+            actions += [['release', to, 'next'], ['pause']]
+            pending -= 1
+    return {'accounts': [{'seed_ix': 0, 'gaps': [gap, 1]}], 'delay_seed': 0 if demo else rng.randrange(10 ** 6),
+            'stages': [{'new': [], 'order_seed': 1}, {'actions': actions}]}
+
+
 # ------------------------------------------------------------------------------------------------
 # one case
 # ------------------------------------------------------------------------------------------------
@@ -728,12 +829,16 @@ def run_case(run, model, scenario, label):
             pass
         loop.close()
     case = {'label': label, 'scenario': scenario}
-    ntx = sum(len(s.get('new', [])) for s in scenario['stages'])
+    ntx = sum(len(s.get('new', [])) + sum(1 for a in s.get('actions', []) if a[0] == 'add') for s in scenario['stages'])
+    if any(s.get('actions') for s in scenario['stages']):
+        run.count('gated_schedules')
+        run.count('held_answers', runner.count_held)
     run.case(case, nontrivial=ntx > 0)
     run.count('stages=%d' % len(scenario['stages']))
     run.count('txs=%s' % ('0' if ntx == 0 else '1-5' if ntx <= 5 else '6-15' if ntx <= 15 else '16+'))
     run.count('accounts=%d' % n_acc)
     nontemplate = any(o['kind'] == 'nontemplate' for s in scenario['stages'] for t in s.get('new', []) for o in t['outs'])
+    gated = any(s.get('actions') for s in scenario['stages'])
     if crash:
         run.violation(case, f'the sync run did not complete: {crash}; errors={runner.errors[:2]}',
                       signature={'kind': 'non_template_output_script'} if nontemplate else {'kind': 'crash', 'label': label})
@@ -745,6 +850,8 @@ def run_case(run, model, scenario, label):
             kinds[op[0]] = kinds.get(op[0], 0) + 1
         if bad:
             sig = {'kind': 'non_template_output_script'} if nontemplate else {'kind': 'monitor', 'label': label, 'stage': si}
+            if gated:
+                bad += ' (several notifications for one address while get_history answers were held back: see actions)'
             run.violation(case, f'stage {si}: {bad}', signature=sig)
             return
         m = model.call('run', gaps=runner.world.gaps, ops=ops, accounts=[[2 * k, 2 * k + 1] for k in range(n_acc)])
@@ -794,7 +901,9 @@ def main(run):
                 'third-party outputs of every template kind (p2pkh, p2sh, claim/support/update wrappers on both, '
                 'pubkey, segwit, return-data, purchase data, empty script), confirms earlier mempool transactions, then '
                 'delivers the status notifications in a shuffled order with duplicates, stale copies, re-subscription '
-                'of all addresses and optional overlap with the next server change; network calls yield 0-5 times. '
+                'of all addresses and optional overlap with the next server change; network calls yield 0-5 times; a '
+                'delayed-answer family sends 3-4 notifications for ONE address while chosen get_history answers are '
+                'held back and released in a chosen order. '
                 'The real interleaving of begin/save/sethist/gap steps is recorded and replayed in the extracted model; '
                 'observables compared at every quiescent point. distinct = distinct scenario; non-trivial = at least '
                 'one transaction.')
@@ -808,7 +917,11 @@ def main(run):
         for yp in vlib.scaled(run.tier, (0.0,), (0.0, 1.0)):
             run_case(run, model, order_scenario(k, list(perm), yp), 'orders:%s:%s' % (''.join(map(str, perm)), yp))
     run.count('exhaustive_orders_k=%d' % k)
-    n = vlib.scaled(run.tier, 90, 3000)
+    # delayed-answer schedules: three or four notifications for one address, chosen get_history answers held back
+    run_case(run, model, gated_scenario(rng, demo=True), 'gated:demo')
+    for i in range(vlib.scaled(run.tier, 14, 300)):
+        run_case(run, model, gated_scenario(rng), f'gated:{i}')
+    n = vlib.scaled(run.tier, 70, 3000)
     for i in range(n):
         size = rng.choice((3, 6, 10, 16, 24, 30))
         run_case(run, model, gen_scenario(rng, size), f'random:{i}')
